@@ -175,14 +175,12 @@ func (m *Map) CopyInto(dst *Map) {
 	dst.Unions = m.Unions
 	dst.ElementRelationship = m.ElementRelationship
 
-	if m.m != nil {
-		// If cache is non-nil then the once token had been consumed.
-		// Must reset token and use it again to ensure same semantics.
-		dst.once = sync.Once{}
-		dst.once.Do(func() {
-			dst.m = m.m
-		})
-	}
+	// The field index is not shared: m.m is filled by FindField under m.once,
+	// so reading it here would race with a concurrent FindField on m (Resolve
+	// calls CopyInto on maps that other goroutines are using). The copy starts
+	// with a fresh once token and builds its own index on first use.
+	dst.once = sync.Once{}
+	dst.m = nil
 }
 
 // UnionFields are mapping between the fields that are part of the union and
